@@ -202,6 +202,92 @@ def impl_read_bibtex(arg):
     with strict_mode():
         return call_impl(lambda: enc_db(parse_string(S(arg[0]), 'bibtex')))
 
+# ---- shared Entry objects: B is derived from A's Entry objects through the public API, THEN both are used
+WAYS = {0: 'BibliographyData(A.entries)', 1: 'BibliographyData(entries=[(new_key, entry), ...])', 2: 'B.add_entry(other_key, entry)',
+        3: 'BibliographyData(A.entries, wanted_entries=[upper-case spellings])', 4: 'A.lower()', 5: 'B.add_entries(generator of (swapcase key, entry))'}
+
+def rekey(way, key):
+    if way == 1: return key + '-2'
+    if way == 2: return key.swapcase() + 'x'
+    if way == 3: return key.upper()
+    if way == 4: return key.lower()
+    if way == 5: return key.swapcase()
+    return key
+
+def expected_b(way, w):
+    """the database B as a value (plain Python, no pybtex): A's entries under B's own keys (lower(): identifiers lower-cased)"""
+    ents = []
+    for key, otype, fields, persons in w[0]:
+        key, otype = S(key), S(otype)
+        fields = [[S(k), S(v)] for k, v in fields]
+        persons = [[S(r), ps] for r, ps in persons]
+        if way == 4:
+            otype = otype.lower(); fields = [[k.lower(), v] for k, v in fields]; persons = [[r.lower(), ps] for r, ps in persons]
+        ents.append([rekey(way, key), otype, fields, persons])
+    return norm([ents, w[1] if way == 4 else []])
+
+def derive_b(way, A):
+    from pybtex.database import BibliographyData
+    if way == 0:
+        return BibliographyData(A.entries)
+    if way == 1:
+        return BibliographyData(entries=[(rekey(1, k), e) for k, e in A.entries.items()])
+    if way == 2:
+        B = BibliographyData()
+        for k, e in list(A.entries.items()):
+            B.add_entry(rekey(2, k), e)
+        return B
+    if way == 3:
+        return BibliographyData(A.entries, wanted_entries=[k.upper() for k in A.entries.keys()])
+    if way == 4:
+        return A.lower()
+    B = BibliographyData()
+    B.add_entries((rekey(5, k), e) for k, e in list(A.entries.items()))
+    return B
+
+def _op(op, db):
+    if op in (0, 1, 2):
+        from pybtex.database import parse_string
+        return call_impl(lambda: enc_db(parse_string(db.to_string(FMTS[op]), FMTS[op])))
+    fmts, pc = ([1, 0, 2], True) if op == 3 else ([2, 1], False)
+    from pybtex.database import parse_file
+    from pybtex.database.convert import convert
+    def run():
+        d = tempfile.mkdtemp(prefix='c02_')
+        try:
+            names = [os.path.join(d, 'f%d%s' % (i, SUFFIX[f])) for i, f in enumerate(fmts)]
+            db.to_file(names[0], FMTS[fmts[0]])
+            for i in range(1, len(fmts)):
+                convert(names[i - 1], names[i], from_format=FMTS[fmts[i - 1]], to_format=FMTS[fmts[i]], preserve_case=pc)
+            return enc_db(parse_file(names[-1], FMTS[fmts[-1]]))
+        finally:
+            shutil.rmtree(d, ignore_errors=True)
+    return call_impl(run)
+
+def impl_shared(arg):
+    way, op, w = arg[0], arg[1], arg[2]
+    with strict_mode():
+        try:
+            A = mk_db(w); B = derive_b(way, A)
+        except Exception as e:
+            return ['HARNESS', 'could not build the shared databases', repr(e)]
+        return [_op(op, A), _op(op, B)]
+
+def impl_shared_pickle_repr(arg):
+    way, w = arg[0], arg[1]
+    from pybtex.database import BibliographyData, Entry, Person
+    from pybtex.utils import OrderedCaseInsensitiveDict
+    env = {'BibliographyData': BibliographyData, 'Entry': Entry, 'Person': Person, 'OrderedCaseInsensitiveDict': OrderedCaseInsensitiveDict}
+    with strict_mode():
+        A = mk_db(w); B = derive_b(way, A)
+        return [call_impl(lambda: enc_db(pickle.loads(pickle.dumps(A)))), call_impl(lambda: enc_db(pickle.loads(pickle.dumps(B)))),
+                call_impl(lambda: enc_db(eval(repr(A), env))), call_impl(lambda: enc_db(eval(repr(B), env)))]
+
+def model_arg(fn, arg):
+    if fn == 19:      # the model has values, not objects: it gets B as the database it is (own keys)
+        return [arg[1], arg[2], expected_b(arg[0], arg[2])]
+    return arg
+
 PERSON = ('T', ('L', 'S'), ('L', 'S'), ('L', 'S'), ('L', 'S'), ('L', 'S'))
 ENTRY = ('T', 'S', 'S', ('L', ('T', 'S', 'S')), ('L', ('T', 'S', ('L', PERSON))))
 DB = ('T', ('L', ENTRY), ('L', 'S'))
@@ -222,6 +308,8 @@ FUNCS = {
     15: ('pickle.loads(pickle.dumps(data)) (oracle only)', impl_pickle, ('T', DB)),
     16: ('eval(repr(data)) (oracle only)', impl_repr_eval, ('T', DB)),
     18: ("parse_string(text, 'bibtex') as a database", impl_read_bibtex, ('T', 'S')),
+    19: ('round trip / chain of A and of B derived from the Entry objects of A', impl_shared, ('T', 'X', 'X', DB)),
+    20: ('pickle and repr/eval of A and of B derived from the Entry objects of A (oracle only)', impl_shared_pickle_repr, ('T', 'X', DB)),
 }
 
 def _ws(cps):
@@ -243,8 +331,10 @@ def _xml_canon(x):
     return [tag, i, text, [_xml_canon(c) for c in cs]]
 
 def canon(fn, r):
-    if fn in (15, 16):
+    if fn in (15, 16, 20):
         return []          # no model: the oracle alone judges these
+    if fn == 19:
+        return [canon_res(x) for x in r] if isinstance(r, list) and len(r) == 2 else r
     r = canon_res(r)
     try:
         if fn == 4 and r[0] == 0:
@@ -485,6 +575,23 @@ def oracle(fn, arg, out):
 _LAST = [False]
 def _oracle(fn, arg, out):
     _LAST[0] = False
+    if fn in (19, 20):
+        # every database keeps its OWN keys (the dictionary keys, in order), whatever other database holds the same Entry objects
+        way, w = arg[0], arg[-1]
+        wb = expected_b(way, w)
+        if fn == 19:
+            op = arg[1]
+            sub = (12, lambda x: [op, x]) if op in (0, 1, 2) else (13, lambda x: [[1, 0, 2], 1, x]) if op == 3 else (13, lambda x: [[2, 1], 0, x])
+            for name, db, o in (('A', w, out[0]), ('B', wb, out[1])):
+                m = _oracle(sub[0], sub[1](db), o)
+                if m:
+                    return 'with B = %s: database %s: %s' % (WAYS[way], name, m)
+            return None
+        for name, db, o, f2 in (('A', w, out[0], 15), ('B', wb, out[1], 15), ('A', w, out[2], 16), ('B', wb, out[3], 16)):
+            m = _oracle(f2, [db], o)
+            if m and not (f2 == 16 and (str_not_reparsed(db))):
+                return 'with B = %s: database %s: %s' % (WAYS[way], name, m)
+        return None
     if fn == 12:
         fmts, pc, w = [arg[0]], True, arg[1]
     elif fn == 13:
@@ -520,12 +627,16 @@ def _oracle(fn, arg, out):
             return '%s: identifiers are not lower-cased: %r' % (what, got2)
     return None
 
+def _sub19(arg):
+    op = arg[1]
+    return (12, [op, arg[2]]) if op in (0, 1, 2) else (13, [[1, 0, 2], 1, arg[2]]) if op == 3 else (13, [[2, 1], 0, arg[2]])
+
 KNOWN_SIGNATURES = {
     # the BibTeX writer re-escapes # % & _ ~ (set aside by the property text)
-    'F18': lambda kind, fn, arg, detail: kind == 'oracle' and ((fn == 12 and arg[0] == 0 and has_five(arg[1])) or
+    'F18': lambda kind, fn, arg, detail: kind == 'oracle' and ((fn == 19 and 0 in ([arg[1]] if arg[1] < 3 else [0] if arg[1] == 3 else []) and has_five(arg[2])) or (fn == 12 and arg[0] == 0 and has_five(arg[1])) or
                                                               (fn == 13 and 0 in arg[0] and has_five(arg[2]))),
     # YAML writer: a field called "type" overwrites the entry type
-    'FC02b': lambda kind, fn, arg, detail: kind == 'oracle' and ((fn == 12 and arg[0] == 2 and type_field(arg[1])) or
+    'FC02b': lambda kind, fn, arg, detail: kind == 'oracle' and ((fn == 19 and arg[1] in (2, 3, 4) and type_field(arg[2])) or (fn == 12 and arg[0] == 2 and type_field(arg[1])) or
                                                                 (fn == 13 and 2 in arg[0] and type_field(arg[2]))),
     # Person.__repr__ = Person(str(person)): str() drops empty parts ('Plato' for first=Plato, 'Smith, Jr' for last+lineage)
     'FC02e': lambda kind, fn, arg, detail: kind == 'oracle' and fn == 16 and str_not_reparsed(arg[0]),
@@ -580,6 +691,8 @@ def describe(fn, arg):
             return pd(arg[0])
         if fn == 12:
             return {'format': FMTS[arg[0]], 'database': pd(arg[1])}
+        if fn in (19, 20):
+            return {'B derived by': WAYS[arg[0]], 'operation': (['bibtex', 'bibtexml', 'yaml', 'chain bibtexml>bibtex>yaml', 'chain yaml>bibtexml lower'][arg[1]] if fn == 19 else 'pickle, repr/eval'), 'database A': pd(arg[-1])}
         if fn == 13:
             return {'formats': [FMTS[f] for f in arg[0]], 'preserve_case': bool(arg[1]), 'database': pd(arg[2])}
     except Exception:
@@ -587,7 +700,7 @@ def describe(fn, arg):
     return {'fn': fn, 'arg': arg}
 
 def nontrivial(fn, arg, out):
-    if fn in (15, 16):
+    if fn in (15, 16, 19, 20):
         return True
     if not (isinstance(out, list) and out and out[0] == 0):
         return fn in (1, 2)
@@ -954,6 +1067,19 @@ def _gen(tier, rng):
                     continue
                 yield ('exhaustive_chains', 13, [c, pc, w])
 
+    # ---- shared Entry objects: B derived from A's Entry objects in every public way, THEN A and B are written / read
+    kn = parse_person('Donald E. Knuth')
+    shared = [[[['Knuth84', 'Book', [['Title', 'A {B}'], ['YEAR', '1984']], [['author', [kn]]]], ['k2', 'misc', [['note', 'x']], []], ['UPPER', 'Article', [], [['Editor', [kn, parse_person('de la Fontaine, Jean')]]]]], ['pre']],
+              db_of('T', kn, key='Key1'), db_of('v', key='a')]
+    for i in range(3 if quick else 40):
+        shared.append(rand_db(rng, maxn=3))
+    for w in shared:
+        for way in WAYS:
+            for op in (0, 1, 2, 3, 4):
+                case = ('shared_entries', 19, [way, op, w])
+                if op < 3 or xml_lib_ok(13, [[1, 0, 2], 1, w]):
+                    yield case
+            yield ('shared_entries', 20, [way, w])
     # ---- structured random: mostly valid larger databases
     nr = 400 if quick else 6000
     for i in range(nr):
@@ -1056,7 +1182,7 @@ RULE = ('pinned: the inputs of the findings (F18 five characters, FC02b field "t
         'persons: 19 parsed names (parts of up to 6 tokens) x 4 role spellings x 3 formats and all part lists over a pool of 8 tokens (empty, trailing backslash, ~, braced); '
         'identifiers: 14 keys x 3 types x 5 field names x roles x formats/lower/repr; every chain of <= 3 formats x preserve_case. '
         'random: databases of 1-4 entries with 0-4 fields, 0-2 roles of 1-3 persons (parsed names or random token lists), optional preamble; '
-        'malformed: unbalanced / un-normalised values, repeated keys and fields, persons with empty or spaced tokens; reader trees: the YAML / XML tree of random databases and token-level damaged copies; '
+        'shared_entries: a second database B is built from the Entry OBJECTS of A in every public way (constructor with a mapping / with re-keyed pairs / with wanted_entries in another spelling, add_entry and add_entries under other keys and letter case, lower()) and only then A and B are written and read back in every format, through two chains, pickled and repr-ed: each must keep its own keys; malformed: unbalanced / un-normalised values, repeated keys and fields, persons with empty or spaced tokens; reader trees: the YAML / XML tree of random databases and token-level damaged copies; '
         '.bib texts: writer output and character-level damaged copies. '
         'distinct = distinct (function, argument); non-trivial = the model reads back at least one entry (round trips) / produces a non-empty result.')
 EXHAUSTIVE = {'quick': 'Writer.quote on all strings over {a,{,},",\\,space} of length <= 5; check_braces <= 4; latex encoder on all strings over {a,~,space,#,\\,{} of length <= 4; value pool x formats; person pool x roles x formats; all format chains of length <= 3 x preserve_case',
